@@ -521,7 +521,7 @@ def s9_stored_text(chk: Check, proj: Project) -> None:
 
 
 MANIFEST = {
-    "text": "Decides the structural chain that makes an emitted script URL resolvable: cachers dominate the render's exit and precede emission; presence is re-asked of the backend each time; writer / presence test / reader agree on the cache key; URL kwargs, view parameters and URL patterns agree and the class hash cannot contain the separators; the view's 405/404 exits precede anything that can raise on request data; emission and caching use the same predicate. Also: js/css twin functions agree up to the kind, more specific routes first, the class hash is md5 of the unmodified import path and assigned for every class, no memo in front of the cache backend, and the own backend's entry limit is effective. Round 4 / triage: a request value bound to a raising callee's parameter has its own 404 exit, the URL is built by reverse(), cache-key fields are unchanged. Round 5: the library's middleware leaves the script view's own content types alone (prefix test evaluated against the content-type table). Round 6: the cached text is the script (at most stripped at its ends); every is_nonempty_str decision asks the inheritance-aware attribute, never the class's own media record.",
+    "text": "Decides the structural chain that makes an emitted script URL resolvable: cachers dominate the render's exit and precede emission; presence is re-asked of the backend each time; writer / presence test / reader agree on the cache key; URL kwargs, view parameters and URL patterns agree and the class hash cannot contain the separators; the view's 405/404 exits precede anything that can raise on request data; emission and caching use the same predicate. Also: js/css twin functions agree up to the kind, more specific routes first, the class hash is md5 of the unmodified import path and assigned for every class, no memo in front of the cache backend, and the own backend's entry limit is effective. Round 4 / triage: a request value bound to a raising callee's parameter has its own 404 exit, the URL is built by reverse(), cache-key fields are unchanged. Round 5: the library's middleware leaves the script view's own content types alone (prefix test evaluated against the content-type table). Round 6: the cached text is the script (at most stripped at its ends); every is_nonempty_str decision asks the inheritance-aware attribute, never the class's own media record. Round 7: builtins that validate a request value cannot raise out of the view; a test that names a kind looks at that kind's attribute.",
     "note": "Trusted: django.urls.reverse and path converters; the cache backend keeps what is set until evicted. Not decided: that served bytes equal the component's code over histories with evictions.",
     "technique": "dominator-based ordering, sibling/table agreement, alphabet domain",
 }
